@@ -234,10 +234,27 @@ func c04History(c *Ctx, r *rng.R) {
 		y := pool[r.Intn(len(pool))]
 		before := unionMarks(x.v, y.v)
 		var res []cty.Value
+		var mustKeep [][2]cty.Value
 		var what string
 		extra := cty.ValueMarks{}
 		p, _ := recovered(func() {
-			switch r.Intn(9) {
+			switch r.Intn(10) {
+			case 9:
+				// refining a marked (and possibly already refined) unknown keeps every mark
+				u, ms := x.v.Unmark()
+				if u.IsKnown() {
+					u = gv.UnknownFor(r, u)
+				}
+				src := u.WithMarks(ms).Mark("rf")
+				extra["rf"] = struct{}{}
+				what = "refine " + x.name + " (as a marked unknown)"
+				out := src.Refine().NotNull().NewValue()
+				res = append(res, out)
+				if u.Type() != cty.DynamicPseudoType {
+					out2 := out.RefineNotNull()
+					res = append(res, out2)
+					mustKeep = append(mustKeep, [2]cty.Value{src, out}, [2]cty.Value{out, out2})
+				}
 			case 0:
 				k := 4 + r.Intn(3)
 				extra[k] = struct{}{}
@@ -354,6 +371,12 @@ func c04History(c *Ctx, r *rng.R) {
 		for m := range extra {
 			before[m] = struct{}{}
 		}
+		for _, pr := range mustKeep {
+			if !subset(pr[0].Marks(), pr[1].Marks()) {
+				c.Fail("C04/mark-lost", fmt.Sprintf("%s: %s lost a mark of the value it was made from, %s", what, cq.Show(pr[1]), cq.Show(pr[0])), desc)
+				return
+			}
+		}
 		for _, o := range res {
 			if !subset(deepMarks(o), before) {
 				c.Fail("C04/mark-invented", fmt.Sprintf("%s: result %s carries a mark no operand carried", what, cq.Show(o)), desc)
@@ -447,6 +470,19 @@ func c04Stdlib(c *Ctx, r *rng.R) {
 			args[j] = placeMarks(r, args[j], r.Bool())
 			marked++
 			kind += "+positional-short-circuit"
+		})
+	}
+	if r.Chance(30) {
+		// a marked argument that is unknown but says something about itself: the implementation answers with
+		// a refined unknown, which the function system refines again
+		k := r.Intn(len(args))
+		recovered(func() {
+			if args[k].IsKnown() {
+				args[k] = gv.UnknownFor(r, args[k])
+			}
+			args[k] = args[k].Mark(1 + r.Intn(3))
+			marked++
+			kind += "+refined-unknown"
 		})
 	}
 	for k := range args {
